@@ -62,8 +62,18 @@ quiet_inner = dataset(_base, effects=[_strict_eff])                     # 6: eff
 quiet_inner.disable_effects()
 quiet = dataset(_outer, defaults={"i": quiet_inner}, default_options={"A": 7})
 
-GRAPHS = [plain, overloaded, outer, nocache, derived, selfref, quiet]
-NAMES = ["plain", "overloaded", "outer", "nocache", "derived", "selfref", "quiet"]
+_TICKETS = [0]
+
+
+def _ticket(a: int = Option("A", 0)) -> tuple:
+    _TICKETS[0] += 1                        # a run-once implementation: every body run gives a new ticket
+    return ("ticket", _TICKETS[0], a)
+
+
+ticket = dataset(_ticket)                                                 # 7: memoized value that recomputation cannot reproduce
+
+GRAPHS = [plain, overloaded, outer, nocache, derived, selfref, quiet, ticket]
+NAMES = ["plain", "overloaded", "outer", "nocache", "derived", "selfref", "quiet", "ticket"]
 
 
 @dataset
@@ -81,7 +91,7 @@ def host_impl(x: int = Option("X")) -> tuple:                           # .overl
 
 DECORATOR_FORMS = [deco, host]
 _IMPL_X = overloaded.overloads.lookup[1]
-ALL_DATASETS = [plain, overloaded, _IMPL_X, inner, outer, nocache, derived, selfref, quiet_inner, quiet, deco, host, host_impl]
+ALL_DATASETS = [plain, overloaded, _IMPL_X, inner, outer, nocache, derived, selfref, quiet_inner, quiet, ticket, deco, host, host_impl]
 
 
 def reset_caches():
